@@ -193,13 +193,13 @@ Print Assumptions C10_file_dict_no_name_nothing.
 (* HarperAddToUserDict, userDictPath an absolute path without `..` that names a file: `<user>.tmp`, renamed onto `<user>` *)
 Theorem C10_user_dict_save_inside : forall c user,
   comps user <> [] -> (forall x, In x (comps user) -> x <> dotdot) -> m_user c = render (comps user) ->
-  user_dict_plan user = (m_user c ++ tmp_suffix, m_user c ++ tmp_suffix, m_user c) /\
+  user_dict_plan user = Some (m_user c ++ tmp_suffix, m_user c ++ tmp_suffix, m_user c) /\
   path_allowed c (m_user c ++ tmp_suffix) = true /\ path_allowed c (m_user c) = true /\
   rename_allowed c (m_user c ++ tmp_suffix) (m_user c) = true.
 Proof. exact user_dict_save_inside. Qed.
 Check C10_user_dict_save_inside : forall c user,
   comps user <> [] -> (forall x, In x (comps user) -> x <> dotdot) -> m_user c = render (comps user) ->
-  user_dict_plan user = (m_user c ++ tmp_suffix, m_user c ++ tmp_suffix, m_user c) /\
+  user_dict_plan user = Some (m_user c ++ tmp_suffix, m_user c ++ tmp_suffix, m_user c) /\
   path_allowed c (m_user c ++ tmp_suffix) = true /\ path_allowed c (m_user c) = true /\
   rename_allowed c (m_user c ++ tmp_suffix) (m_user c) = true.
 Print Assumptions C10_user_dict_save_inside.
@@ -306,7 +306,9 @@ Example C10_save_plan_examples :
   file_dict_plan (b "/s/fd") None = None /\
   file_dict_plan (b "/s/fd") (Some (b "/")) = None /\
   file_dict_plan (b "/s/fd") (Some (b "/.//")) = None /\
-  user_dict_plan (b "/s//cfg/./user.txt") = (b "/s/cfg/user.txt.tmp", b "/s/cfg/user.txt.tmp", b "/s/cfg/user.txt") /\
+  user_dict_plan (b "/s//cfg/./user.txt") = Some (b "/s/cfg/user.txt.tmp", b "/s/cfg/user.txt.tmp", b "/s/cfg/user.txt") /\
+  user_dict_plan (b "/s/cfg/..") = None /\ user_dict_plan (b "/") = None /\
+  user_dict_plan_old (b "/s/cfg/..") = (b "/s/.tmp", b "/s/.tmp", b "/s") /\
   save_plan (join_comps (b "/s/fd") (b "/home/u/draft.md%")) = (b "/home/u/draft.md%.tmp", b "/home/u/draft.md%.tmp", b "/home/u/draft.md%") /\
   save_plan (join_comps (b "/s/fd") (b "../../x%")) = (b "/x%.tmp", b "/x%.tmp", b "/x%").
 Proof. exact save_plan_examples. Qed.
@@ -394,38 +396,36 @@ Qed.
    to the working directory), compared in the correspondence with the real function (cases `G`).
    $HOME, the working directory, config_dir() and data_local_dir() are inputs (e : penv). *)
 
-(* for EVERY configuration the parser can produce, from any settings in any environment: the user dictionary is
-   written as <user>.tmp and renamed onto <user> provided the setting names a file (last component not `..`: the ONE
-   proviso left, and it cannot go — C10_config_user_write_refuted); a file dictionary as <dir>/<name>.tmp renamed onto
-   <dir>/<name>, for EVERY directory, the root included (phase 4: the proviso "<dir> is not the root" is gone — the
-   monitor is told a directory as the prefix of its children, "" for the root); the statistics file is opened in
-   place; all accepted by the monitor under THAT configuration's locations — and for an absent or EMPTY userDictPath
-   the proviso holds by itself.  No hypothesis that paths are free of `..`. *)
+(* for EVERY configuration the parser can produce, from any settings in any environment, with NO proviso left on any
+   of the three settings: whenever HarperAddToUserDict writes at all it is <user>.tmp renamed onto <user> (a setting
+   without a final file name — "/", "<dir>/.." — is refused by save_dict since a91f3ee, the fix of FC10b: nothing is
+   written, C10_config_user_no_file_name_nothing); a file dictionary is <dir>/<name>.tmp renamed onto <dir>/<name>
+   for every directory, the root included; the statistics file is opened in place; all accepted by the monitor under
+   THAT configuration's locations; and an absent or EMPTY userDictPath does write (the default names a file).
+   No hypothesis that paths are free of `..`. *)
 Theorem C10_config_writes_inside : forall e u f s pc, parse_paths e u f s = Some pc ->
   let c := mcfg_of pc in
-  (names_file (p_user pc) = true ->
-     cfg_user_plan pc = (m_user c ++ tmp_suffix, m_user c ++ tmp_suffix, m_user c) /\
-     path_allowed c (m_user c ++ tmp_suffix) = true /\ path_allowed c (m_user c) = true /\
-     rename_allowed c (m_user c ++ tmp_suffix) (m_user c) = true) /\
+  (forall o s' d, cfg_user_plan pc = Some (o, s', d) ->
+     o = m_user c ++ tmp_suffix /\ s' = o /\ d = m_user c /\
+     path_allowed c o = true /\ path_allowed c d = true /\ rename_allowed c s' d = true) /\
   (forall fp o s' d, cfg_file_plan pc fp = Some (o, s', d) ->
      d = m_filedir c ++ slash :: file_dict_name (match fp with Some p => p | None => [] end) /\
      o = d ++ tmp_suffix /\ s' = o /\
      path_allowed c o = true /\ path_allowed c d = true /\ rename_allowed c s' d = true) /\
   path_allowed c (cfg_stats_write pc) = true /\
-  (unset u -> names_file (p_user pc) = true).
+  (unset u -> cfg_user_plan pc = Some (m_user c ++ tmp_suffix, m_user c ++ tmp_suffix, m_user c)).
 Proof. exact config_writes_inside. Qed.
 Check C10_config_writes_inside : forall e u f s pc, parse_paths e u f s = Some pc ->
   let c := mcfg_of pc in
-  (names_file (p_user pc) = true ->
-     cfg_user_plan pc = (m_user c ++ tmp_suffix, m_user c ++ tmp_suffix, m_user c) /\
-     path_allowed c (m_user c ++ tmp_suffix) = true /\ path_allowed c (m_user c) = true /\
-     rename_allowed c (m_user c ++ tmp_suffix) (m_user c) = true) /\
+  (forall o s' d, cfg_user_plan pc = Some (o, s', d) ->
+     o = m_user c ++ tmp_suffix /\ s' = o /\ d = m_user c /\
+     path_allowed c o = true /\ path_allowed c d = true /\ rename_allowed c s' d = true) /\
   (forall fp o s' d, cfg_file_plan pc fp = Some (o, s', d) ->
      d = m_filedir c ++ slash :: file_dict_name (match fp with Some p => p | None => [] end) /\
      o = d ++ tmp_suffix /\ s' = o /\
      path_allowed c o = true /\ path_allowed c d = true /\ rename_allowed c s' d = true) /\
   path_allowed c (cfg_stats_write pc) = true /\
-  (unset u -> names_file (p_user pc) = true).
+  (unset u -> cfg_user_plan pc = Some (m_user c ++ tmp_suffix, m_user c ++ tmp_suffix, m_user c)).
 Print Assumptions C10_config_writes_inside.
 
 (* an absent or EMPTY userDictPath / fileDictPath is the default location (the guard seed c10-4 removes); an empty
@@ -480,58 +480,41 @@ Example C10_config_examples :
   parse_render e SNotString SAbsent SAbsent = None /\ parse_render e SAbsent SAbsent SNotString = None /\
   (exists pc, parse_paths e (SString (b "../up/./d.txt")) (SString []) SAbsent = Some pc /\
      names_file (p_user pc) = true /\
-     cfg_user_plan pc = (b "/work/up/d.txt.tmp", b "/work/up/d.txt.tmp", b "/work/up/d.txt") /\
+     cfg_user_plan pc = Some (b "/work/up/d.txt.tmp", b "/work/up/d.txt.tmp", b "/work/up/d.txt") /\
      cfg_file_plan pc (Some (b "/work/proj/a.md")) =
        Some (b "/home/u/.local/share/harper-ls/file_dictionaries/work%proj%a.md%.tmp",
              b "/home/u/.local/share/harper-ls/file_dictionaries/work%proj%a.md%.tmp",
              b "/home/u/.local/share/harper-ls/file_dictionaries/work%proj%a.md%")).
 Proof. exact config_examples. Qed.
 
-(* the proviso `names_file` is needed: userDictPath "/a/b/.." (a directory, written down explicitly) makes save_dict
-   create "/a/.tmp", which the monitor rejects *)
+(* HISTORY (FC10b, fixed by a91f3ee): userDictPath "/a/b/.." (a directory, written down explicitly) made the OLD
+   save_dict create "/a/.tmp", which the monitor rejects; the current one writes nothing *)
 Example C10_config_dir_setting_example :
   let b := fun s : string => bytes_of_string s in
   let e := mkenv (b "/home/u") (b "/work/proj") (b "/home/u/.config") (b "/home/u/.local/share") in
   exists pc, parse_paths e (SString (b "/a/b/..")) SAbsent SAbsent = Some pc /\ names_file (p_user pc) = false /\
-    m_user (mcfg_of pc) = b "/a" /\ cfg_user_plan pc = (b "/a/.tmp", b "/a/.tmp", b "/a") /\
-    path_allowed (mcfg_of pc) (b "/a/.tmp") = false.
+    m_user (mcfg_of pc) = b "/a" /\ cfg_user_plan_old pc = (b "/a/.tmp", b "/a/.tmp", b "/a") /\
+    path_allowed (mcfg_of pc) (b "/a/.tmp") = false /\ cfg_user_plan pc = None.
 Proof. exact config_dir_setting_example. Qed.
 
 (* ---------------------------------------------------------------------------------------------------------------
-   Phase 4.  (a) The remaining proviso of C10_config_writes_inside — "userDictPath names a file" — is NOT enforced by
-   config.rs (only "" is guarded).  What the code does for every setting that names no file, proved; the property at
-   full strength refuted by a witness (finding FC10b, replayed on the real binary: mode stdio-userdir); and the
-   full-strength statement for the model with the proposed fix. *)
-Theorem C10_config_user_plan_dir : forall pc, names_file (p_user pc) = false ->
-  let dirp := render' (resolve (p_user pc)) in
-  cfg_user_plan pc = (dirp ++ slash :: tmp_suffix, dirp ++ slash :: tmp_suffix, m_user (mcfg_of pc)).
-Proof. exact config_user_plan_dir. Qed.
-Check C10_config_user_plan_dir : forall pc, names_file (p_user pc) = false ->
-  let dirp := render' (resolve (p_user pc)) in
-  cfg_user_plan pc = (dirp ++ slash :: tmp_suffix, dirp ++ slash :: tmp_suffix, m_user (mcfg_of pc)).
-Print Assumptions C10_config_user_plan_dir.
+   Phase 4.  (a) The former proviso of C10_config_writes_inside — "userDictPath names a file" — was NOT enforced by
+   config.rs (finding FC10b); /repo took the proposed fix (a91f3ee: save_dict refuses a destination without a file
+   name before it creates anything) and the guarded save_dict_plan is THE model now. *)
+Theorem C10_config_user_no_file_name_nothing : forall pc, names_file (p_user pc) = false -> cfg_user_plan pc = None.
+Proof. exact config_user_no_file_name_nothing. Qed.
+Check C10_config_user_no_file_name_nothing : forall pc, names_file (p_user pc) = false -> cfg_user_plan pc = None.
+Print Assumptions C10_config_user_no_file_name_nothing.
 
-Theorem C10_config_user_write_refuted :
-  exists e u pc o sr d, parse_paths e u SAbsent SAbsent = Some pc /\ cfg_user_plan pc = (o, sr, d) /\
-    path_allowed (mcfg_of pc) o = false /\ rename_allowed (mcfg_of pc) sr d = false.
-Proof. exact config_user_write_refuted. Qed.
-Check C10_config_user_write_refuted :
-  exists e u pc o sr d, parse_paths e u SAbsent SAbsent = Some pc /\ cfg_user_plan pc = (o, sr, d) /\
-    path_allowed (mcfg_of pc) o = false /\ rename_allowed (mcfg_of pc) sr d = false.
-Print Assumptions C10_config_user_write_refuted.
+(* HISTORY only — over the OLD definition cfg_user_plan_old (save_dict before a91f3ee): the full-strength statement was
+   false, witness userDictPath = "/a/b/.." (open "/a/.tmp", rename onto "/a": both rejected); the current model writes
+   nothing for it.  Replaces the theorem C10_config_user_write_refuted. *)
+Example C10_config_user_write_old_refuted :
+  exists e u pc o sr d, parse_paths e u SAbsent SAbsent = Some pc /\ cfg_user_plan_old pc = (o, sr, d) /\
+    path_allowed (mcfg_of pc) o = false /\ rename_allowed (mcfg_of pc) sr d = false /\ cfg_user_plan pc = None.
+Proof. exact config_user_write_old_refuted. Qed.
 
-Theorem C10_config_user_fixed_inside : forall pc o s d, cfg_user_plan_fixed pc = Some (o, s, d) ->
-  let c := mcfg_of pc in
-  o = m_user c ++ tmp_suffix /\ s = o /\ d = m_user c /\
-  path_allowed c o = true /\ path_allowed c d = true /\ rename_allowed c s d = true.
-Proof. exact config_user_fixed_inside. Qed.
-Check C10_config_user_fixed_inside : forall pc o s d, cfg_user_plan_fixed pc = Some (o, s, d) ->
-  let c := mcfg_of pc in
-  o = m_user c ++ tmp_suffix /\ s = o /\ d = m_user c /\
-  path_allowed c o = true /\ path_allowed c d = true /\ rename_allowed c s d = true.
-Print Assumptions C10_config_user_fixed_inside.
-
-(* non-vacuity: fileDictPath "/" (the case the old proviso excluded) and "~/.." ; userDictPath "~/x/.." under the fix *)
+(* non-vacuity: fileDictPath "/" (the case the old proviso excluded) and "~/.." ; userDictPath "~/x/.." (refused) *)
 Example C10_config_root_examples :
   let b := fun s : string => bytes_of_string s in
   let e := mkenv (b "/home") (b "/work/proj") (b "/home/.config") (b "/home/.local/share") in
@@ -541,9 +524,9 @@ Example C10_config_root_examples :
   (exists pc, parse_paths e SAbsent (SString (b "~/..")) SAbsent = Some pc /\
      cfg_file_plan pc (Some (b "/w/a.md")) = Some (b "/w%a.md%.tmp", b "/w%a.md%.tmp", b "/w%a.md%")) /\
   (exists pc, parse_paths e (SString (b "~/x/..")) SAbsent SAbsent = Some pc /\ names_file (p_user pc) = false /\
-     cfg_user_plan pc = (b "/home/.tmp", b "/home/.tmp", b "/home") /\ cfg_user_plan_fixed pc = None) /\
+     cfg_user_plan_old pc = (b "/home/.tmp", b "/home/.tmp", b "/home") /\ cfg_user_plan pc = None) /\
   (exists pc, parse_paths e (SString (b "~/x/../d.txt")) SAbsent SAbsent = Some pc /\
-     cfg_user_plan_fixed pc = Some (b "/home/d.txt.tmp", b "/home/d.txt.tmp", b "/home/d.txt")).
+     cfg_user_plan pc = Some (b "/home/d.txt.tmp", b "/home/d.txt.tmp", b "/home/d.txt")).
 Proof.
   cbv zeta. repeat split; eexists; (split; [reflexivity |]); vm_compute; repeat split; reflexivity.
 Qed.
@@ -586,7 +569,7 @@ Proof. exact cli_examples. Qed.
 Theorem C10_path_code_shapes :
   config_path_blocks = [("userDictPath", "user_dict_path", true, "try_resolve"); ("fileDictPath", "file_dict_path", true, "try_resolve");
                         ("statsPath", "stats_path", false, "try_resolve")] /\
-  save_dict_refuses_no_file_name = false /\
+  save_dict_refuses_no_file_name = true /\
   ls_file_dict_name_shape = ("%", true, true) /\ cli_file_dict_name_shape = ("%", true, false) /\
   cli_lint_loads = ["&user_dict_path"; "file_dict_path.join(file_dict_name(&file))"] /\
   bytes_of_string "%" = [percent].
@@ -594,7 +577,7 @@ Proof. exact path_code_shapes. Qed.
 Check C10_path_code_shapes :
   config_path_blocks = [("userDictPath", "user_dict_path", true, "try_resolve"); ("fileDictPath", "file_dict_path", true, "try_resolve");
                         ("statsPath", "stats_path", false, "try_resolve")] /\
-  save_dict_refuses_no_file_name = false /\
+  save_dict_refuses_no_file_name = true /\
   ls_file_dict_name_shape = ("%", true, true) /\ cli_file_dict_name_shape = ("%", true, false) /\
   cli_lint_loads = ["&user_dict_path"; "file_dict_path.join(file_dict_name(&file))"] /\
   bytes_of_string "%" = [percent].
